@@ -311,6 +311,30 @@ def param_of(body, name_idx):
     return "param:%d" % name_idx
 
 
+def rebuilt_header(F, S, R):
+    """BlockBuilder::build_internal(reset_header = true): every header it builds after setting one commitment carries all three
+    (transactions_root, proposals_hash, extra_hash). A `build()` that sets two of them and keeps the third from the old header (round-3 seed
+    C15-seed6: "nothing to hash" when there are no uncles and no extension) commits to a body the block no longer has."""
+    b = F.one("ckb_types", r"advanced_builders::BlockBuilder::build_internal$")
+    R.fn(b)
+    HB = r"advanced_builders::HeaderBuilder::"
+    builds = b.calls_to(HB + "build$")
+    setters = {n: b.calls_to(HB + n + "$") for n in ("transactions_root", "proposals_hash", "extra_hash")}
+    R.sites += len(builds) + sum(len(v) for v in setters.values())
+    if not builds or not all(setters.values()):
+        R.bad("mustcall/rebuilt-header/anchor-lost", "HeaderBuilder::build / the three commitment setters not found in build_internal", [b.where()])
+        return
+    bad = []
+    for bc in builds:
+        dom = {n: any(b.dominates(c.bb, bc.bb) for c in cs) for n, cs in setters.items()}
+        if any(dom.values()) and not all(dom.values()):
+            bad.append((bc, sorted(n for n, v in dom.items() if not v)))
+    if bad:
+        R.bad("mustcall/rebuilt-header", "a header is rebuilt with some commitments recomputed and %s kept from the old header" % bad[0][1], [bad[0][0].where()])
+    else:
+        R.ok("mustcall/rebuilt-header", "every rebuilt header carries all three recomputed commitments", [builds[0].where()])
+
+
 def orders(F, S, R):
     # ExtraHashView::new: blake2b(uncles_hash || extension_hash), tuple = (extension_hash, extra_hash)
     new = F.need("ckb_types::core::views::ExtraHashView::new")
@@ -561,5 +585,6 @@ def run(F, S, R, tier):
     R.guard("sibling/int-codec", lambda: endianness(F, R))
     R.guard("prov/hash-scope", lambda: hash_scope(F, S, R))
     R.guard("order", lambda: orders(F, S, R))
+    R.guard("mustcall/rebuilt-header", lambda: rebuilt_header(F, S, R))
     R.guard("prov/view-hash", lambda: view_hashes(F, S, R))
     R.guard("layout", lambda: store_layout(F, S, R))
